@@ -16,10 +16,10 @@ CONSTANTS
   RecordHistory = FALSE
   Sampled = FALSE
   MaxHist = 0
-  TagsA = {"none", "v1", "v2", "junk", "bad"}
-  TagsB = {"none", "v1", "rep", "dup", "lim"}
+  TagsA = {"none", "v1", "junk", "bad"}
+  TagsB = {"none", "rep", "dup", "lim"}
   TagsC = {"none"}
-  TagsQ = {"none", "q1", "qbad"}
+  TagsQ = {"none", "q1"}
   TagsG = {"none", "gbad"}
   PayA = {}
   PayB = {}
